@@ -6,7 +6,7 @@ from fractions import Fraction
 from common import Str, sx
 
 ID = 'C08'
-LEAN_MODULES = ['Cellml.Props.C08', 'Cellml.Tie.ModelState', 'Cellml.Props.C08Gen']
+LEAN_MODULES = ['Cellml.Props.C08', 'Cellml.Tie.ModelState', 'Cellml.Props.C08Gen', 'Cellml.Props.C06GenE']
 N = {'quick': 192, 'thorough': 2600}
 RULE = ('histories of API calls on a Model built through the public API over a pool of 6 variable slots (two share a '
         'name, two share a cmeta id, one cmeta id equals another variable\'s name, the model id equals a name) and 10 '
@@ -17,7 +17,7 @@ RULE = ('histories of API calls on a Model built through the public API over a p
         'in two observation modes (light: only non-perturbing queries around the last call, graphs at the explicit '
         'query calls; deep: both graphs read after every call of the tail) = 15 192 histories; thorough adds tails of '
         '3 over the full alphabet and of 4 over the core (223 722 more). Random histories of 6-40 calls, every call '
-        'checked; one random bundle in five interleaves convert_variable (oracle only, not modelled). A case bundles '
+        'checked; one random bundle in five interleaves convert_variable (oracle only in this check; its raises are modelled in Props/C06GenE). The corpus adds one convert history over an 11th equation dy/da (a second bound variable), the witness of the known finding. A case bundles '
         '100 exhaustive or 25 random histories. After every checked call: full snapshot compared with the model; '
         'oracle = a fresh Model rebuilt through the API from the current variables and equations answers every query '
         'alike, and a raising call leaves the snapshot as it was. non-trivial = some call raised; distinct = distinct '
@@ -33,7 +33,7 @@ ASSUMPTIONS = ['variable arguments of remove_variable / add_cmeta_id / transfer_
                'answers such calls with a conventional `notInModel` rejection; the generator skips them); right-hand '
                'sides may mention removed variables',
                'add_equation(check_duplicates=False) (internal use by convert_variable) and convert_variable itself are '
-               'outside the modelled alphabet; convert_variable histories are searched by the oracle only',
+               'outside the alphabet of the C08 model; convert_variable histories are searched by the oracle only (the class of its exceptions and the state it leaves at a raise are tied to the source by Tie/ConvertVarE.lean)',
                'left-hand derivatives are of a single variable with respect to variables (Derivative(x+y, t) is outside)']
 FINGERPRINT = {'cellmlmanip/model.py': [
     'Model.__init__', 'Model.variables', 'Model.get_free_variable', 'Model.get_state_variables', 'Model.get_definition',
@@ -76,12 +76,14 @@ def build_eq(k, V, Q):
         return sp.Eq(sp.Derivative(x, t, 2), a, evaluate=False)                 # second-order derivative
     if k == 9:
         return sp.Eq(y, a * Q[0] + b, evaluate=False)                           # dependency on a vanishes with numbers substituted
+    if k == 10:
+        return sp.Eq(sp.Derivative(y, a), Q[1], evaluate=False)                 # ODE over a SECOND bound variable (witness only)
     raise ValueError(k)
 
 
 EQ_SLOTS = {0: [0], 1: [1, 0], 2: [2, 4, 0], 3: [3, 4, 2], 4: [1, 2, 4], 5: [0, 2, 4], 6: [2], 7: [0, 1], 8: [2, 4, 0],
-            9: [3, 0, 1]}
-EQ_LHS_SLOTS = {0: [0], 1: [1], 2: [2, 4], 3: [3, 4], 4: [1], 5: [0], 6: [2], 7: [], 8: [2, 4], 9: [3]}
+            9: [3, 0, 1], 10: [3, 0]}
+EQ_LHS_SLOTS = {0: [0], 1: [1], 2: [2, 4], 3: [3, 4], 4: [1], 5: [0], 6: [2], 7: [], 8: [2, 4], 9: [3], 10: [3, 0]}
 
 ALPHABET = ([['addVar', i] for i in range(6)] + [['rmVar', i] for i in range(6)] +
             [['addEq', k] for k in range(N_EQS)] + [['rmEq', k] for k in range(N_EQS)] +
@@ -169,6 +171,12 @@ def corpus():
         # (3) order_added reused after remove_variable
         {'mode': 'light', 'from': 0, 'check': 0, 'ops': [['addVar', 4], ['addVar', 0], ['addVar', 2], ['rmVar', 0], ['addVar', 3],
                                              ['addEq', 3], ['addEq', 2], ['states']]},
+    ]}, {'kind': 'convert', 'histories': [
+        # (4) known finding: ODEs over two different bound variables (dx/dt, dy/da), then the free variable t converted as
+        # an input: the loop assert of convert_variable fires after t_converted and x_orig_deriv have been added
+        {'mode': 'light', 'from': 0, 'check': 0, 'conv': True,
+         'ops': [['addVar', 0], ['addVar', 2], ['addVar', 3], ['addVar', 4], ['addEq', 2], ['addEq', 10],
+                 ['convert', 4, 'second', 'IN']]},
     ]}]
 
 
@@ -434,9 +442,11 @@ def run_history(h):
 
                 def call(v=v, op=op):
                     from cellmlmanip.model import DataDirectionFlow
-                    m.convert_variable(v, m.units.get_unit(op[2]),
-                                       DataDirectionFlow.INPUT if op[3] == 'IN' else DataDirectionFlow.OUTPUT)
-                    run.adopt()
+                    try:
+                        m.convert_variable(v, m.units.get_unit(op[2]),
+                                           DataDirectionFlow.INPUT if op[3] == 'IN' else DataDirectionFlow.OUTPUT)
+                    finally:
+                        run.adopt()     # also after a raise: whatever the call left behind must be observable
         elif kind == 'quantity':
             rec['op'] = ['quantity']
 
@@ -481,7 +491,8 @@ def run_history(h):
         if rec['out'].startswith('err:') and is_edit:
             d = diff_keys(snap, prev)
             if d:
-                fails.append({'key': 'not-atomic:%s:%s' % (kind, ','.join(d)),
+                what = kind if kind != 'convert' else 'convert:' + rec['out'][4:]
+                fails.append({'key': 'not-atomic:%s:%s' % (what, ','.join(d)),
                               'detail': '%s changed %s: before %s after %s'
                               % (where, d, [prev[k] for k in d], [snap[k] for k in d])})
             if rec['out'] not in ('err:ValueError', 'err:KeyError') and \
